@@ -17,8 +17,10 @@ INVS = ["Inv_NoAckedLoss", "Inv_NoAckedLossStrict", "Inv_EveryAckedWrite", "Inv_
 PROPS = ["Prop_FlushCovers"]
 
 
-def consts(clients, maxver, maxadmin, maxflush, barrier=False, closewaits=False, snapfails=True, capturewaits=True, droprace=False):
-    return {"Clients": "<- " + clients, "MaxVer": maxver, "MaxAdmin": maxadmin, "MaxFlush": maxflush,
+def consts(clients, maxver, maxadmin, maxflush, barrier=False, closewaits=False, snapfails=True, capturewaits=True, droprace=False,
+           snapclosewaits=True, volatile=None):
+    return {"SnapCloseWaits": "TRUE" if snapclosewaits else "FALSE", "Volatile": "<- " + (volatile or clients),
+            "Clients": "<- " + clients, "MaxVer": maxver, "MaxAdmin": maxadmin, "MaxFlush": maxflush,
             "Barrier": "TRUE" if barrier else "FALSE", "CloseWaits": "TRUE" if closewaits else "FALSE",
             "SnapFails": "TRUE" if snapfails else "FALSE", "CaptureWaits": "TRUE" if capturewaits else "FALSE", "DropRace": "TRUE" if droprace else "FALSE"}
 
@@ -102,13 +104,14 @@ def kinds_arg():
 TRACE_MC = """---- MODULE MC_TraceWriter ----
 EXTENDS Trace_Writer
 c_TClients == {%s}
+c_TVolatile == {%s}
 ====
 """
 
 
-def validate_trace(path, clients):
-    mc = TRACE_MC % ", ".join('"%s"' % c for c in clients)
-    cfg = make_cfg("TraceSpec", {"Clients": "<- c_TClients", "MaxVer": 1000000, "MaxAdmin": 1000000, "MaxFlush": 1000000,
+def validate_trace(path, clients, volatile=()):
+    mc = TRACE_MC % (", ".join('"%s"' % c for c in clients), ", ".join('"%s"' % c for c in volatile))
+    cfg = make_cfg("TraceSpec", {"SnapCloseWaits": "TRUE", "Volatile": "<- c_TVolatile", "Clients": "<- c_TClients", "MaxVer": 1000000, "MaxAdmin": 1000000, "MaxFlush": 1000000,
                                  "Barrier": "FALSE", "CloseWaits": "FALSE", "SnapFails": "TRUE", "CaptureWaits": "TRUE", "DropRace": "FALSE"},
                    ["TInv_NoAckedLoss"], [], constraint="HighWater", postcondition="TraceAccepted")
     r = run_tlc("MC_TraceWriter", "t.cfg", cfg_text=cfg, extra_files={"MC_TraceWriter.tla": mc}, workers=1, timeout=1800,
@@ -144,7 +147,7 @@ def record_and_validate(chk, n, rng):
         if p.returncode != 0:
             return job, "error", "rc=%d %s" % (p.returncode, p.stderr[-500:]), None
         events = [json.loads(l) for l in open(path)]
-        r = validate_trace(path, ["c%d" % (k + 1) for k in range(job["clients"])])
+        r = validate_trace(path, ["c%d" % (k + 1) for k in range(job["clients"])], ["c%d" % (k + 1) for k in range(job.get("vadd", 0))])
         if not r.ok and not r.printed.get("REJECTED") and not r.violated:
             return job, "error", "TLC gave no verdict on the recorded trace: %s" % ((r.error or r.raw_tail or "")[:600]), None
         return job, ("accepted" if r.ok else "rejected"), r, events
@@ -230,7 +233,7 @@ def replay_file(path):
             with open(tp, "w") as f:
                 for ev in rec["events"]:
                     f.write(json.dumps(ev) + "\n")
-            r = validate_trace(tp, ["c%d" % (k + 1) for k in range(rec["job"]["clients"])])
+            r = validate_trace(tp, ["c%d" % (k + 1) for k in range(rec["job"]["clients"])], ["c%d" % (k + 1) for k in range(rec["job"].get("vadd", 0))])
         finally:
             import shutil
             shutil.rmtree(d, ignore_errors=True)
@@ -273,6 +276,13 @@ def run(tier):
     chk.cov["tlc_runs"].append({"config": "MC_Writer_droprace_canary", "expected": "Inv_EveryAckedWrite violated", "violated": rc2.violated, "wall_s": round(rc2.wall, 1)})
     if rc2.violated != "Inv_EveryAckedWrite":
         chk.infra.append("canary: with DropRace=TRUE the specification must drop an acknowledged write, TLC said: %s %s" % (rc2.violated, (rc2.error or "")[:300]))
+    # canary: a shutdown that does not wait for a snapshot in progress (the protocol before c40f673) lets the snapshot capture
+    # the core after DB.Close -- no vector index at all -- and rename that image over the good one
+    rc3 = run_tlc("MC_Writer", "MC_Writer_closesnap_canary.cfg", cfg_text=make_cfg("SpecH", consts("c_Clients1", 1, 2, 0, snapfails=False, snapclosewaits=False),
+                                                                              ["Inv_NoAckedLossStrict"], [], view="ViewH"), timeout=900)
+    chk.cov["tlc_runs"].append({"config": "MC_Writer_closesnap_canary", "expected": "Inv_NoAckedLossStrict violated", "violated": rc3.violated, "wall_s": round(rc3.wall, 1)})
+    if rc3.violated != "Inv_NoAckedLossStrict":
+        chk.infra.append("canary: with SnapCloseWaits=FALSE the specification must lose an acknowledged write (image of a closed core), TLC said: %s %s" % (rc3.violated, (rc3.error or "")[:300]))
     # 2. forced schedules from complete TLC behaviours
     recs = corpus(chk, "MC_Writer_corpus", consts("c_Clients2", 1, 1, 0), timeout=1800)
     recs += corpus(chk, "MC_Writer_walks", consts("c_Clients2", 3, 2, 1), simulate=400 if quick else 4000, depth=60)
@@ -325,6 +335,15 @@ def run(tier):
     if len(precs) > (12 if quick else 200):
         precs = rng.sample(precs, 12 if quick else 200)
     probes = [dict(r, id="p%d_%s" % (i, kind), kind=kind, probe=True) for i, r in enumerate(precs) for kind in ("kv", "vadd", "vbatch")]
+    # the same for a shutdown that overtakes a snapshot (SnapCloseWaits = FALSE; tag close_during_snapshot): Close has to wait
+    crecs = corpus(chk, "MC_Writer_closeprobe_corpus", consts("c_Clients1", 1, 2, 0, snapfails=False, snapclosewaits=False), timeout=1800)
+    crecs = [r for r in dedup(crecs) if "close_during_snapshot" in (r.get("cov") or [])]
+    if not crecs:
+        raise Infra("no close_during_snapshot behaviour in the deviation corpus: the shutdown probes are vacuous")
+    if len(crecs) > (10 if quick else 150):
+        crecs = rng.sample(crecs, 10 if quick else 150)
+    chk.cov["shutdown_probe_schedules"] = len(crecs) * 2
+    probes += [dict(r, id="pc%d_%s" % (i, kind), kind=kind, probe=True) for i, r in enumerate(crecs) for kind in ("vadd", "vbatch")]
     pres = vlib.run_sharded(binary, "writer", {}, probes)
     for e in pres.get("errors", []):
         chk.infra.append("probe replay error: " + e)
